@@ -187,6 +187,12 @@ class AppCfgMgr:
                             instance_name)
             return
 
+        elif self._is_configured(event_file):
+            # The container was configured from this very cache entry by a
+            # synchronization and has been handed to cleanup since.
+            _LOGGER.warning('Event on already configured %r', instance_name)
+            return
+
         elif self._configure(instance_name):
             self._refresh_supervisor()
 
@@ -212,6 +218,12 @@ class AppCfgMgr:
         elif self._is_active is False:
             # Ignore all deleted events while we are not running
             _LOGGER.debug('Inactive in deleted event handler.')
+            return
+
+        elif self._is_current(instance_name):
+            # The instance was placed again since this event was queued and
+            # the running container already is the one the cache asks for.
+            _LOGGER.info('Ignoring stale delete event on %r', instance_name)
             return
 
         else:
@@ -426,6 +438,33 @@ class AppCfgMgr:
                 pass
             else:
                 raise
+
+    def _is_configured(self, event_file):
+        """Check if the container of that cache entry already exists.
+        """
+        try:
+            container = appcfg.eventfile_unique_name(event_file)
+        except OSError:
+            # No cache entry.
+            return False
+
+        return os.path.exists(os.path.join(self.tm_env.apps_dir, container))
+
+    def _is_current(self, instance_name):
+        """Check if the running container is the one the cache asks for.
+        """
+        try:
+            container = appcfg.eventfile_unique_name(
+                os.path.join(self.tm_env.cache_dir, instance_name)
+            )
+        except OSError:
+            # No cache entry.
+            return False
+
+        running = self._resolve_running_link(
+            os.path.join(self.tm_env.running_dir, instance_name)
+        )
+        return os.path.basename(running) == container
 
     def _refresh_supervisor(self):
         """Notify the supervisor of new instances to run."""
